@@ -21,7 +21,7 @@ CONSTANTS Period,      \* housekeeping period              1000
           Batch,       \* largest batch                      32
           RejoinMs,    \* reconnect bound after a repair  30000
           MaxL,
-          Check        \* which properties' clauses are asserted: a subset of {"C01", "C03", "C04", "C06", "C07", "C08", "C09", "C10", "C14", "C20"}
+          Check        \* which properties' clauses are asserted: a subset of {"C01", "C03", "C04", "C06", "C07", "C08", "C09", "C10", "C14", "C19", "C20"}
                        \* (the observer's own state always advances; each check names its property)
 
 Rec == ndJsonDeserialize(IOEnv.TRACE)
@@ -49,10 +49,14 @@ VARIABLES i,
           seen2,     \* links that have sent a REG2 carrying the receiver's group id since that answer
           amn,       \* amn[l]: time of a receiver restart / injected send failure after which link l has not been
                      \*         re-registered (-1: none)
-          failing    \* failing[l]: the kernel refuses every send on l's current socket (injected), not yet re-created
+          failing,   \* failing[l]: the kernel refuses every send on l's current socket (injected), not yet re-created
+          listed,    \* the uplinks the IP file currently lists (as applied)
+          pendL, applyT,  \* a reloaded list waiting for the next housekeeping pass, and when that pass is (-1: none)
+          refT,      \* time of the last refused reload (-1: none)
+          lastApply  \* when the last list came into force
 
 vars == <<i, n, timeout, profile, est, known, outst, hi, recent, routed, dups, port, conn, heard, kaT, downLo,
-          everUp, repaired, mode, modeT, ackT, kw, kwT, reg1L, reg1T, ansT, seen2, amn, failing>>
+          everUp, repaired, mode, modeT, ackT, kw, kwT, reg1L, reg1T, ansT, seen2, amn, failing, listed, pendL, applyT, refT, lastApply>>
 
 Links == 1..MaxL
 Handshake == {"reg1", "reg2", "reg3", "reg_err", "reg_ngp"}
@@ -67,6 +71,11 @@ RxOf(r, l)     == SelectSeq(r.rx, LAMBDA x : x.l = l)
 Fs(r, l)     == FramesOf(r, l)
 NewP(r, l)   == IF Fs(r, l) = <<>> THEN port[l] ELSE Fs(r, l)[Len(Fs(r, l))].port
 Torn(r, l)   == port[l] # 0 /\ \E j \in 1..Len(Fs(r, l)) : Fs(r, l)[j].port # port[l]
+(* ---- IP-list reloads (C19): a SIGHUP queues the new list, the next housekeeping pass applies it ---- *)
+Applying(r) == applyT # -1 /\ r.t >= applyT
+Removed(r)  == IF Applying(r) THEN listed \ pendL ELSE {}
+Kept(r)     == IF Applying(r) THEN listed \cap pendL ELSE listed
+
 (* the sockets of link l that may carry unique copies in step r: the one REG3 has reached (still in place when the
    step began), and the one REG3 reaches in this very step *)
 OkPorts(r, l) == (IF conn[l] # -1 THEN {port[l]} ELSE {})
@@ -81,6 +90,7 @@ Fresh(r) ==
     /\ mode' = r.mode /\ modeT' = 0 /\ ackT' = -1 /\ kw' = [l \in Links |-> -1] /\ kwT' = [l \in Links |-> -1]
     /\ reg1L' = 0 /\ reg1T' = -1 /\ ansT' = -1 /\ seen2' = {} /\ amn' = [l \in Links |-> -1]
     /\ failing' = [l \in Links |-> FALSE]
+    /\ listed' = (IF "listed" \in DOMAIN r THEN {r.listed[j] : j \in 1..Len(r.listed)} ELSE 1..r.n) /\ pendL' = {} /\ applyT' = -1 /\ refT' = -1 /\ lastApply' = 0
 
 (* ---------------- the uplink direction (C01) ---------------- *)
 (* fold over the frames of one step, in the order the receiver socket delivered them *)
@@ -123,7 +133,9 @@ Uplink(r) ==
         \* a datagram still queued on an uplink that is torn down in this step may be lost with it
         \* ... and so may whatever was routed to an uplink whose socket refuses every send (until it is re-created)
         Fail1 == [l \in Links |-> (failing[l] \/ (r.ev = "SendFail" /\ r.done /\ r.l = l))]
-        o1 == IF \E l \in 1..n : Torn(r, l) \/ Fail1[l] THEN {[x EXCEPT !.must = FALSE] : x \in w.o} ELSE w.o
+        \* ... or on an uplink that a reload removes in this step
+        o1 == IF Applying(r) \/ \E l \in 1..n : Torn(r, l) \/ Fail1[l]
+              THEN {[x EXCEPT !.must = FALSE] : x \in w.o} ELSE w.o
     IN /\ outst' = o1 /\ hi' = w.h /\ routed' = w.routed /\ dups' = w.dups
        /\ recent' = {s \in w.sent : r.t - s.t <= 100}
        /\ "C04" \in Check => w.elig
@@ -146,12 +158,16 @@ Uplink(r) ==
 (* ---------------- the return direction (C09) ---------------- *)
 Digs(s) == {s[j].dig : j \in 1..Len(s)}
 Relayable(r) == {r.rx[j].dig : j \in {q \in 1..Len(r.rx) : r.rx[q].cls \notin Internal /\ r.rx[q].len >= 2}}
+(* ... of which those addressed to an uplink that is listed and stays listed must arrive (a datagram on its way to an
+   uplink that a reload has just removed finds no socket) *)
+MustRelay(r) == {r.rx[j].dig : j \in {q \in 1..Len(r.rx) : /\ r.rx[q].cls \notin Internal /\ r.rx[q].len >= 2
+                                                             /\ r.rx[q].l \in listed \ Removed(r)}}
 Return(r) ==
     /\ known' = (known \/ (r.ev = "Client" /\ r.sent))
     \* the client gets exactly the receiver's SRT-level datagrams of this step, byte for byte, and nothing else
     /\ "C09" \in Check =>
          /\ Digs(r.client) \subseteq Relayable(r)
-         /\ known => Relayable(r) \subseteq Digs(r.client)
+         /\ known => MustRelay(r) \subseteq Digs(r.client)
          /\ ~known => r.client = <<>>
 
 (* ---------------- sockets, liveness, keepalives (C08 / C14) ---------------- *)
@@ -238,20 +254,43 @@ Amn1(r, l) == IF Got3(r, l) THEN -1
 Failing1(r, l) == IF Torn(r, l) THEN FALSE ELSE failing[l] \/ (r.ev = "SendFail" /\ r.done /\ r.l = l)
 
 Upd(f(_, _), old, r) == [l \in Links |-> IF l <= n THEN f(r, l) ELSE old[l]]
+(* an uplink removed by a reload starts from nothing if its address is ever listed again *)
+Gone(fn, blank, r) == [l \in Links |-> IF l \in Removed(r) THEN blank ELSE fn[l]]
+
+ReloadChecks(r) ==
+    "C19" \in Check =>
+        \* an uplink that is not listed (any more) puts nothing on the wire
+        /\ \A j \in 1..Len(r.wire) : r.wire[j].l \in listed \/ (Applying(r) /\ r.wire[j].l \in pendL)
+        \* an uplink whose address remains keeps its socket and its registration through the reload
+        /\ Applying(r) => \A l \in Kept(r) : conn[l] # -1 => (~Torn(r, l) /\ Conn1(r, l) # -1)
+        \* each address is added once: one socket per uplink at a time
+        /\ \A l \in 1..n : Cardinality({Fs(r, l)[j].port : j \in 1..Len(Fs(r, l))}) <= (IF Torn(r, l) THEN 2 ELSE 1)
+        \* a refused reload (nothing usable in the file) leaves every uplink untouched
+        /\ (refT # -1 /\ r.t - refT <= 2 * Period) => \A l \in listed : conn[l] # -1 => ~Torn(r, l)
+ReloadNext(r) ==
+    /\ listed' = IF Applying(r) THEN pendL ELSE listed
+    /\ pendL'  = IF r.ev = "Reload" /\ ~r.refused THEN {r.listed[j] : j \in 1..Len(r.listed)}
+                 ELSE IF Applying(r) THEN {} ELSE pendL
+    /\ applyT' = IF r.ev = "Reload" /\ ~r.refused THEN ((r.t \div Period) + 1) * Period
+                 ELSE IF Applying(r) THEN -1 ELSE applyT
+    /\ refT'   = IF r.ev = "Reload" /\ r.refused THEN r.t ELSE refT
+    /\ lastApply' = IF Applying(r) THEN r.t ELSE lastApply
 
 LinksOK(r) ==
     /\ \A l \in 1..n : LinkChecks(r, l) /\ WindowChecks(r, l)
     /\ HandshakeChecks(r) /\ HandshakeNext(r)
-    /\ amn' = Upd(Amn1, amn, r) /\ failing' = Upd(Failing1, failing, r)
+    /\ amn' = Gone(Upd(Amn1, amn, r), -1, r) /\ failing' = Gone(Upd(Failing1, failing, r), FALSE, r)
     /\ "C08" \in Check => \A l \in 1..n : Amn1(r, l) # -1 => r.t - Amn1(r, l) <= RejoinMs + timeout + Period + r.d
-    /\ kw' = Upd(Kw1, kw, r) /\ kwT' = Upd(KwT1, kwT, r)
+    /\ kw' = Gone(Upd(Kw1, kw, r), -1, r) /\ kwT' = Gone(Upd(KwT1, kwT, r), -1, r)
     /\ ackT' = IF AckNow(r) THEN r.t ELSE ackT
     /\ mode' = IF r.ev = "SetCfg" /\ "classic" \in DOMAIN r THEN (IF r.classic THEN "classic" ELSE "enhanced") ELSE mode
     /\ modeT' = IF r.ev = "SetCfg" /\ "classic" \in DOMAIN r THEN r.t ELSE modeT
-    /\ port' = Upd(NewP, port, r) /\ conn' = Upd(Conn1, conn, r) /\ heard' = Upd(Heard1, heard, r)
-    /\ kaT' = Upd(KaT1, kaT, r) /\ repaired' = Upd(Rep1, repaired, r)
-    /\ downLo' = [l \in Links |-> IF l <= n /\ Torn(r, l) THEN r.t - r.d ELSE downLo[l]]
-    /\ everUp' = [l \in Links |-> IF l <= n THEN (everUp[l] \/ Conn1(r, l) # -1) ELSE everUp[l]]
+    /\ port' = Gone(Upd(NewP, port, r), 0, r) /\ conn' = Gone(Upd(Conn1, conn, r), -1, r)
+    /\ heard' = Gone(Upd(Heard1, heard, r), -1, r)
+    /\ kaT' = Gone(Upd(KaT1, kaT, r), -1, r) /\ repaired' = Gone(Upd(Rep1, repaired, r), -1, r)
+    /\ downLo' = Gone([l \in Links |-> IF l <= n /\ Torn(r, l) THEN r.t - r.d ELSE downLo[l]], -1, r)
+    /\ everUp' = Gone([l \in Links |-> IF l <= n THEN (everUp[l] \/ Conn1(r, l) # -1) ELSE everUp[l]], FALSE, r)
+    /\ ReloadChecks(r) /\ ReloadNext(r)
     /\ est' = (est \/ \E j \in 1..Len(r.rx) : r.rx[j].cls = "reg3")
 
 TraceInit ==
@@ -263,6 +302,7 @@ TraceInit ==
     /\ mode = "enhanced" /\ modeT = 0 /\ ackT = -1 /\ kw = [l \in Links |-> -1] /\ kwT = [l \in Links |-> -1]
     /\ reg1L = 0 /\ reg1T = -1 /\ ansT = -1 /\ seen2 = {} /\ amn = [l \in Links |-> -1]
     /\ failing = [l \in Links |-> FALSE]
+    /\ listed = {} /\ pendL = {} /\ applyT = -1 /\ refT = -1 /\ lastApply = 0
 
 TraceNext ==
     /\ i <= Len(Rec)
